@@ -35,9 +35,14 @@ static KSI_CTX *trusting_ctx(int anchor /*0 good CA, 1 rogue CA only, 2 none*/, 
 		case 2: c[0].oid = KSI_CERT_EMAIL; c[0].val = "publications@verif.tesT"; break;
 		case 3: c[0].oid = KSI_CERT_EMAIL; c[0].val = EMAIL; c[1].oid = KSI_CERT_COMMON_NAME; c[1].val = CN; break;
 		case 4: c[0].oid = KSI_CERT_EMAIL; c[0].val = EMAIL; c[1].oid = KSI_CERT_COMMON_NAME; c[1].val = "Verif Publication"; break;
+		/* 7 / 8: a constraint on an attribute the signer's subject does not carry (organizational unit) - after a matching constraint
+		 * that expects the very same string, and alone; 9: a second matching constraint on the organization */
+		case 7: c[0].oid = KSI_CERT_EMAIL; c[0].val = EMAIL; c[1].oid = "2.5.4.11"; c[1].val = EMAIL; break;
+		case 8: c[0].oid = "2.5.4.11"; c[0].val = "Verif Test"; break;
+		case 9: c[0].oid = KSI_CERT_EMAIL; c[0].val = EMAIL; c[1].oid = KSI_CERT_ORGANIZATION; c[1].val = "Verif Test"; break;
 		default: break;
 	}
-	if (constraints >= 5) {
+	if (constraints == 5 || constraints == 6) {
 		/* 5 / 6: the right / a wrong e-mail address given through the older setter */
 		if (KSI_CTX_setPublicationCertEmail(ctx, constraints == 5 ? EMAIL : "publications@verif.tesT") != KSI_OK) vf_harness_error("setPublicationCertEmail");
 		return ctx;
@@ -348,7 +353,7 @@ static int verify_file_constraints(KSI_CTX *ctx, const unsigned char *p, size_t 
 static void part_trust(void) {
 	int anchor, cons, signer;
 	/* matrix: signer x anchor x constraint set */
-	for (signer = 0; signer < 3; signer++) for (anchor = 0; anchor < 3; anchor++) for (cons = 0; cons < 7; cons++) {
+	for (signer = 0; signer < 3; signer++) for (anchor = 0; anchor < 3; anchor++) for (cons = 0; cons < 10; cons++) {
 		KSI_CTX *ctx;
 		vbuf b;
 		size_t sl;
@@ -361,7 +366,7 @@ static void part_trust(void) {
 		v = parse_and_verify(ctx, b.p, b.n, &pres);
 		/* trusted iff the signer chains to the configured anchor and every configured constraint (at least one) matches */
 		expect = (anchor == 0 && signer != 1) || (anchor == 1 && signer == 1);
-		if (cons == 0 || cons == 2 || cons == 4 || cons == 6) expect = 0;
+		if (cons == 0 || cons == 2 || cons == 4 || cons == 6 || cons == 7 || cons == 8) expect = 0;
 		if (signer == 2) expect = 0;                          /* other e-mail address */
 		vf_outcome("trust:%s:%s", expect ? "trusted-expected" : "untrusted-expected", v == KSI_OK ? "trusted" : "refused");
 		if (pres != KSI_OK) vf_fail("valid-file-refused", "signed file refused by the parser 0x%x", pres);
